@@ -139,6 +139,8 @@ package expand
 // the name only if the sort before it kept equal names in their original order. stableSortedObj (ghost, see
 // /verif/trusted/slices.spec) names the backing array last sorted by a stable sort.
 //@ func listEnviron_
+// (ghost variable updated at a call site of this function; everything else it may write is not framed)
+//@ modifies heap, stableSortedObj
 //@ noauto
 //@ props C34
 //@ ensures [survivors-valid] all(j, 0, len(result.(listEnviron).pairs), validPair(result.(listEnviron).pairs[j]))
